@@ -289,6 +289,15 @@ func longValueRun(r *Rng, s *Scenario, ok CompileOK) {
 	}
 }
 
+// rowID: the node id of the i-th child of the top element of a table document.
+func rowID(d DocSpec, i int) int {
+	id := 2 + len(d.C[0].A) // root 0, top element 1, its attributes
+	for k := 0; k < i; k++ {
+		id += (&DocSpec{C: []*NodeSpec{d.C[0].C[k]}}).Count() - 1
+	}
+	return id
+}
+
 func baseCfg(r *Rng) Config {
 	c := Config{CacheCap: -1, PoolMode: r.Intn(2), Faults: !r.Chance(1, 4), NS: r.Chance(1, 5), NSSwap: r.Chance(1, 2), Pristine: r.Chance(1, 100), Must: r.Chance(1, 8), LooseMoveTo: r.Chance(1, 6)}
 	if r.Chance(1, 3) {
@@ -337,6 +346,7 @@ func GenC04(seed, run uint64, ok CompileOK) *Scenario {
 	r := NewRng(seed, HashString("C04"), run)
 	s := &Scenario{Prop: "C04", Mode: "H", Seed: seed, Run: run, Cfg: baseCfg(r)}
 	focus := ""
+	tableDoc, tableExpr := false, false
 	if r.Chance(1, 4) {
 		focus = r.Pick(FocusFuncs) // swarm: a run about one function fed context-dependent arguments
 	}
@@ -354,6 +364,7 @@ func GenC04(seed, run uint64, ok CompileOK) *Scenario {
 		Values = saved
 		if r.Chance(2, 3) {
 			s.Docs[0] = GenTableDoc(r) // regular rows: the function sees colliding argument tuples back to back
+			tableDoc = true
 		}
 	} else {
 		s.Docs = genDocs(r, r.Range(4, 26))
@@ -375,8 +386,32 @@ func GenC04(seed, run uint64, ok CompileOK) *Scenario {
 	if r.Chance(1, 20) {
 		longValueRun(r, s, ok)
 	}
+	if tableDoc && (focus == "translate" || focus == "concat" || focus == "replace" || focus == "substring-before" || focus == "contains" || focus == "string-join") {
+		// the function fed the table's first two columns, in column order, from
+		// one row after the other (the rows hold tuples that collide under any
+		// key glued together from the arguments)
+		rows := s.Docs[0].C[0].C
+		c0, c1 := rows[0].A[0][0], rows[0].A[1][0]
+		at := func(n string) *E { return &E{Op: "path", Kids: []*E{{Op: "step", S: "attribute", T: n, Abbr: true}}} }
+		subj := &E{Op: "path", Kids: []*E{{Op: "step", S: "self", T: "node()", Abbr: true}}}
+		var e *E
+		switch focus {
+		case "translate":
+			e = &E{Op: "fn", S: "translate", Kids: []*E{subj, at(c0), at(c1)}}
+		case "replace":
+			e = &E{Op: "fn", S: "replace", Kids: []*E{subj, at(c0), at(c1)}}
+		case "string-join":
+			e = &E{Op: "fn", S: "string-join", Kids: []*E{{Op: "path", Kids: []*E{{Op: "step", S: "attribute", T: "*", Abbr: true}}}, at(c1)}}
+		default:
+			e = &E{Op: "fn", S: focus, Kids: []*E{at(c0), at(c1)}}
+		}
+		if ok == nil || ok(e.String()) {
+			s.Exprs = append([]ExprSpec{{Text: e.String(), AST: e}}, s.Exprs...)
+			tableExpr = true
+		}
+	}
 	nsteps := r.Range(6, 60)
-	w := []int{r.Range(2, 8), r.Range(2, 10), r.Range(4, 14), r.Range(0, 3), r.Range(1, 5), 0, 0, 0}
+	w := []int{r.Range(2, 8), r.Range(2, 10), r.Range(4, 14), r.Range(0, 3), r.Range(1, 5), 0, 0, 0, r.Range(0, 2)}
 	if r.Chance(1, 8) {
 		w[7] = r.Range(1, 3) // gc: a garbage collection between two operations (finalizers of abandoned iterators run)
 		w[3] += 3            // with iterators abandoned before it
@@ -394,6 +429,11 @@ func GenC04(seed, run uint64, ok CompileOK) *Scenario {
 		st.C = ctxFor(r, s.Docs, st.D)
 		if nsRun && r.Chance(2, 3) {
 			st.D, st.C = r.Intn(2), 0
+		}
+		if tableExpr && r.Chance(1, 2) {
+			// the table expression from a random row
+			st.E, st.D = 0, 0
+			st.C = rowID(s.Docs[0], r.Intn(len(s.Docs[0].C[0].C)))
 		}
 		switch r.Weighted(w) {
 		case 0:
@@ -416,6 +456,9 @@ func GenC04(seed, run uint64, ok CompileOK) *Scenario {
 			st.N = []int{0, 1, 2, 3, 5}[r.Intn(5)]
 		case 7:
 			st.Op = "gc"
+		case 8:
+			st.Op = "str" // String() and, for odd N, the package-level Select on the same text
+			st.N = r.Intn(2)
 		}
 		s.Steps = append(s.Steps, st)
 	}
@@ -526,7 +569,10 @@ var rxAtoms = []string{"a", "b", "c", "d", ".", "[ab]", "[^a]", "[a-c]", "a", "b
 // some patterns are invalid on purpose.
 func GenRegex(r *Rng) string {
 	if r.Chance(1, 10) {
-		return r.Pick([]string{"(", "a(", "[a", "a**", "(?P<n", "a{2,1}", "\\", "(?z)a", "*a", ")"})
+		return r.Pick([]string{"(", "a(", "[a", "a**", "(?P<n", "a{2,1}", "\\", "(?z)a", "*a", ")", RawFF, "a" + RawFF + "b"})
+	}
+	if r.Chance(1, 40) {
+		return r.Pick([]string{"\uFFFD", "a\uFFFD", "\uFFFD+", "[\uFFFDa]"}) // the replacement character, valid in a pattern
 	}
 	if r.Chance(1, 12) {
 		// literal text with anchors in usual and unusual (but legal) places
@@ -613,10 +659,22 @@ func countGroups(p string) int {
 	return n
 }
 
+// RawFF stands, in the K / S / R strings of regex steps, for the single byte
+// 0xFF - text that is not valid UTF-8. (Scenarios travel as JSON, which cannot
+// carry such a byte; the executor substitutes it with Raw.)
+const RawFF = "\uE0FF"
+
+// Raw replaces the RawFF marker by the byte it stands for.
+func Raw(s string) string { return strings.ReplaceAll(s, RawFF, "\xff") }
+
 func genSubject(r *Rng) string {
 	n := r.Range(0, 6)
 	out := ""
 	for i := 0; i < n; i++ {
+		if r.Chance(1, 60) {
+			out += RawFF // a byte that is not valid UTF-8
+			continue
+		}
 		if r.Chance(1, 12) {
 			out += r.Pick([]string{"é", "中", "ü"}) // multi-byte characters
 		} else if r.Chance(1, 25) {
@@ -692,7 +750,7 @@ func genCacheOps(r *Rng, n int, keys []string, faults bool) []Step {
 				// a numeric constant where a pattern is expected
 				out = append(out, Step{Op: "numpat", N: r.Intn(3)})
 			default:
-				out = append(out, Step{Op: "compilebad", N: r.Intn(64), K: r.Pick([]string{"(", "a(", "[a", "a**", "(?P<n", "\\", ")", "a)", "(a"})})
+				out = append(out, Step{Op: "compilebad", N: r.Intn(64), K: r.Pick([]string{"(", "a(", "[a", "a**", "(?P<n", "\\", ")", "a)", "(a", RawFF, "b" + RawFF})})
 			}
 		}
 	}
@@ -903,6 +961,10 @@ func GenC05(seed, run uint64, ok CompileOK) *Scenario {
 			pat := &E{Op: "str", S: r.Pick(g.Patterns[:11])}
 			if longPats {
 				pat.S = LongPattern(r)
+			} else if r.Chance(1, 3) {
+				// a pattern only known at evaluation time: an attribute of the context
+				// node (different context nodes, different patterns at one call site)
+				pat = &E{Op: "fn", S: "string", Kids: []*E{{Op: "path", Kids: []*E{{Op: "step", S: "attribute", T: g.attrName(), Abbr: true}}}}}
 			}
 			subj := g.strArg(1)
 			if r.Chance(1, 2) {
@@ -949,6 +1011,17 @@ func GenC05(seed, run uint64, ok CompileOK) *Scenario {
 			}
 		}
 	}
+	failE := -1
+	if compileStorm && r.Chance(1, 2) {
+		// texts that parse but are refused while the query is built (and one that
+		// trips the nesting guard): failed Compile calls are history too
+		t := r.Pick([]string{"contains()", "count()", "foo(1)", "substring('a')", "matches(.)", "//a[contains()]", "concat('a')", "not()", "DEEP"})
+		if t == "DEEP" {
+			t = strings.Repeat("(", 1100) + "1" + strings.Repeat(")", 1100)
+		}
+		s.Exprs = append(s.Exprs, ExprSpec{Text: t})
+		failE = len(s.Exprs) - 1
+	}
 	longRun := !compileStorm && r.Chance(1, 10)
 	if longRun {
 		n0 := len(s.Exprs)
@@ -975,6 +1048,9 @@ func GenC05(seed, run uint64, ok CompileOK) *Scenario {
 	// tasks collide on purpose: a "hot" (expression, document, context) that
 	// most operations use
 	hotE, hotD := r.Intn(len(s.Exprs)), r.Intn(len(s.Docs))
+	if hotE == failE && failE > 0 {
+		hotE = 0
+	}
 	hotC := ctxFor(r, s.Docs, hotD)
 	for t := 0; t < nt; t++ {
 		var ops []Step
@@ -1018,6 +1094,14 @@ func GenC05(seed, run uint64, ok CompileOK) *Scenario {
 			ops = append(ops, st)
 		}
 		s.Tasks = append(s.Tasks, ops)
+	}
+	if failE >= 0 {
+		for k := r.Range(1, 2); k > 0; k-- {
+			t := r.Intn(len(s.Tasks))
+			at := r.Intn(len(s.Tasks[t]) + 1)
+			st := Step{Op: "compile", E: failE, N: 1, Rep: pickRep(r, 1100)}
+			s.Tasks[t] = append(s.Tasks[t][:at:at], append([]Step{st}, s.Tasks[t][at:]...)...)
+		}
 	}
 	if r.Chance(1, 10) {
 		// gc: garbage collections between the operations of some tasks
